@@ -7,10 +7,10 @@
    x - logsumexp(x) |-> x / sum x,   log(softmax(M)) |-> the matrix M' = softmax(M) itself
    (given to the model as rationals: the implementation's own float32 values).
 
-   The model is written to mirror the source branch by branch, including what looks odd:
-   the forward pass contracts `prev[j] * transition_n[i, j]` (column index = previous state)
-   whereas the backward pass and the density path (TFP) read `transition_n[prev, next]`.
-   No proofs in this file. *)
+   The model is written to mirror the source branch by branch.  The forward pass, the backward
+   pass and the density path (TFP) all read `transition_n[prev, next]`; the forward pass did not
+   before the repair F37 (it contracted `prev[j] * transition_n[i, j]`), and that variant is kept
+   as `alpha_step_transposed`.  No proofs in this file. *)
 From Coq Require Import List Arith Bool ZArith NArith QArith Qcanon.
 From Model Require Import Key.
 Import ListNotations.
@@ -43,20 +43,29 @@ Section HMM.
   Definition gstep (t : nat -> nat -> Qc) (prev : list Qc) (y : nat) : list Qc :=
     tab N (fun i => mget ob i y * sumN N (fun j => vget prev j * t i j)).
 
-  (* forward_pass.t_branch:  alpha[i] = obs_n[i, obs] + logsumexp_j (prev[j] + transition_n[i, j]) *)
-  Definition alpha_step : list Qc -> nat -> list Qc := gstep (fun i j => mget tr i j).
+  (* forward_pass.t_branch (after the repair `prev + transition_n.T`):
+       alpha[i] = obs_n[i, obs] + logsumexp_j (prev[j] + transition_n[j, i])
+     i.e. the contraction runs over the PREVIOUS state j with weight transition_n[prev = j, next = i] *)
+  Definition alpha_step : list Qc -> nat -> list Qc := gstep (fun i j => mget tr j i).
+  (* the forward pass before the repair (`prev + transition_n`): weight transition_n[i, j], the table
+     transposed.  Kept to document what the repair fixed (C37_ffbs_transposed_refuted). *)
+  Definition alpha_step_transposed : list Qc -> nat -> list Qc := gstep (fun i j => mget tr i j).
 
   (* lax.scan(forward_pass, (0, prior), observation_sequence): carry = (index, alpha) *)
-  Fixpoint fwd_scan (index : nat) (prev : list Qc) (ys : list nat) : list (list Qc) :=
+  Fixpoint fwd_scan_with (step : list Qc -> nat -> list Qc) (index : nat) (prev : list Qc) (ys : list nat)
+    : list (list Qc) :=
     match ys with
     | [] => []
     | y :: r =>
-        let alpha := if Nat.eqb index 0 then alpha_init prev y else alpha_step prev y in
-        alpha :: fwd_scan (S index) alpha r
+        let alpha := if Nat.eqb index 0 then alpha_init prev y else step prev y in
+        alpha :: fwd_scan_with step (S index) alpha r
     end.
-  Definition alphas (ys : list nat) : list (list Qc) := fwd_scan 0 pr ys.
+  Definition alphas_with step (ys : list nat) : list (list Qc) := fwd_scan_with step 0 pr ys.
   (* forward_filter = alpha - logsumexp(alpha), stacked by the scan *)
-  Definition filters (ys : list nat) : list (list Qc) := map normalise (alphas ys).
+  Definition filters_with step (ys : list nat) : list (list Qc) := map normalise (alphas_with step ys).
+  Definition alphas := alphas_with alpha_step.
+  Definition filters := filters_with alpha_step.
+  Definition alphas_transposed := alphas_with alpha_step_transposed.
 
   (* backward_sample: the distribution handed to jax.random.categorical at scan step `index`
      (end_branch for index 0, t_1_branch otherwise:
@@ -85,7 +94,10 @@ Section HMM.
     | _, _ => 0
     end.
   (* probability that forward_filtering_backward_sampling returns xs (time order) *)
-  Definition ffbs_pmf (ys xs : list nat) : Qc := bwd_pmf 0 0 (rev (filters ys)) (rev xs).
+  Definition ffbs_pmf_with step (ys xs : list nat) : Qc := bwd_pmf 0 0 (rev (filters_with step ys)) (rev xs).
+  Definition ffbs_pmf := ffbs_pmf_with alpha_step.
+  (* ... and of the sampler before the repair *)
+  Definition ffbs_pmf_transposed := ffbs_pmf_with alpha_step_transposed.
 
   (* ================= latent_sequence_posterior / log_data_marginal ================= *)
 
